@@ -283,6 +283,7 @@ theorem apply_rk {s s' : St} {o : Op} {ra : Nat} (hi : Inv s) (e : apply s o = .
   | update m => exact updateState_rk hi (fun hc => hq hc) e
   | fraud au ra' hh rev p rw => exact fraud_rk (fun hc => hq hc) e
   | obsolete au vs => exact absurd trivial hq
+  | punish au a rw => exact (punish_good (punishProposal_ok e).2).rk ra
   | begin_ dt =>
     simp only [apply] at e; injection e with e; subst e
     exact (beginBlock_good hi.cust.nodup).rk ra
